@@ -253,6 +253,23 @@ fn enum_large(_tier: Tier, f: &mut dyn FnMut(SeqCase) -> bool) {
         new.extend_from_slice(&old[..k]);
         cases.push(SeqCase::full(1, old, new));
     }
+    // more than 2^16 distinct items on each side: a unique common item that is first seen
+    // late (behind 65 536 others) and is crossed by repeats, and one that is first seen early
+    for n in [66_000u32] {
+        let body: Vec<u32> = (10..10 + n).collect();
+        let mut old = body.clone();
+        old.extend([9, 1, 1]);
+        let mut new = body.clone();
+        new.extend([1, 1, 9]);
+        cases.push(SeqCase::full(1, old, new));
+        let mut old = vec![9, 1, 1];
+        old.extend(&body);
+        old.extend([7, 2, 2]);
+        let mut new = vec![1, 1, 9];
+        new.extend(&body);
+        new.extend([2, 7, 2]);
+        cases.push(SeqCase::full(1, old, new));
+    }
     for mut c in cases {
         c.mode = 0;
         if !f(c) {
@@ -294,7 +311,7 @@ impl Prop for C15 {
             Stage {
                 name: "large",
                 kind: StageKind::Enumerate {
-                    scope: "8 fixed cases: 300 / 520 / 1100 unique common items that cross (evens before odds; exchanged thirds), outnumbered by repeated filler; rotations of 700 and 1500 distinct items".into(),
+                    scope: "10 fixed cases: 300 / 520 / 1100 unique common items that cross (evens before odds; exchanged thirds), outnumbered by repeated filler; rotations of 700 and 1500 distinct items; 66 000 distinct common items with a unique item crossed by repeats behind (and in front of) them".into(),
                     exhaustive: true,
                     gen: enum_large,
                 },
